@@ -4,9 +4,12 @@
    _parse_simple_lines, _make_promotion_decls), and where it is consulted
    (len(name) via _literal_length, flash_pattern(name)).
 
-   Python list objects stored in the dict are shared between the dict and its copies:
-   names are bound to *locations* of a transpile-time store.  Child dicts are discarded
-   after the block; the store is not.
+   Python list objects stored in the dict are mutable: names are bound to *locations* of a
+   transpile-time store.  Since the repair of the stale-fold findings (F-C03-shared-list-append ...)
+   a child scope gets a COPY of the dict AND of every tracked list (_copy_const_env): the child's
+   store is private and is discarded with the child dict; after an if / try statement - and, for a
+   loop, BEFORE its condition and body are parsed - every name the block writes at any depth
+   (_written_names) stops being known in the enclosing dict (_forget_names).
 
    The reference semantics [rblock] is Python's for alias-free programs (no "b = a" on
    lists); control flow is driven by an oracle so that every path is covered.
@@ -201,8 +204,10 @@ Definition tsimple (s : stmt) (te : tenv) (st : store) : tres :=
         let argv := match r with CVal v => Some v | _ => None end in
         match tlookup x te with
         | Some (TRef l) =>
-            Some (te, set_nth l (nth l st [] ++ [match argv with Some v => v | None => VNone end]) st, [s],
-                  in_guard c e && match argv with Some _ => true | None => false end)
+            match argv with
+            | Some v => Some (te, set_nth l (nth l st [] ++ [v]) st, [s], in_guard c e)
+            | None => Some ((x, TMark) :: te, st, [s], true)   (* argument only known at run time: so is the list *)
+            end
         | Some (TVal _) => Some (te, st, [s], true)
         | _ => Some ((x, TMark) :: te, st, [s], true)
         end
@@ -221,7 +226,7 @@ Definition tsimple (s : stmt) (te : tenv) (st : store) : tres :=
                 | Some cur' => Some (te, set_nth l cur' st, [s], in_guard c e)
                 | None => Some (te, st, [s], false)            (* Python raises at run time *)
                 end
-            | None => Some (te, set_nth l (tl cur) st, [s], false)   (* unknown argument: current.pop(0) *)
+            | None => Some ((x, TMark) :: te, st, [s], true)   (* argument only known at run time: so is the list *)
             end
         | Some (TVal _) => Some (te, st, [s], true)
         | _ => Some ((x, TMark) :: te, st, [s], true)
@@ -252,9 +257,29 @@ Definition tsimple (s : stmt) (te : tenv) (st : store) : tres :=
   | _ => None
   end.
 
-Definition disjoint_known (ws : list ident) (te : tenv) : bool := forallb (fun x => negb (known x te)) ws.
 Definition no_safe (ws : list ident) : bool := forallb (fun x => negb (tmem x safe_name_references)) ws.
 
+(* _forget_names: the listed names stop being known - where the dict has them *)
+Definition mark_all (ws : list ident) (te : tenv) : tenv := fold_right (fun x acc => (x, TMark) :: acc) te ws.
+Definition forget (ws : list ident) (te : tenv) : tenv := mark_all (filter (fun x => bound x te) ws) te.
+
+(* [vol] = ctx["_function_written"]: the names some function body defined so far writes (parameters excepted).  What a
+   function writes changes whenever it is called: at module level such a name is forgotten again after every assignment
+   statement (_parse_simple_lines, scope <> "function").  [] for a script without function definitions. *)
+Section Vol.
+Variable vol : list ident.
+
+Definition after_assign (s : stmt) (te : tenv) : tenv :=
+  match s with
+  | SAssign x _ => if tmem x vol then (x, TMark) :: te else te
+  | _ => te
+  end.
+
+(* a child scope: the dict is copied and so is every tracked list (_copy_const_env) - the child works on [st] by value,
+   what it leaves in its dict and in its store is discarded (only the names it declared are promoted, as markers).
+   if / try: every branch starts from the snapshot; afterwards every name a branch writes is forgotten.
+   while / for: the names the body writes (and the loop variable) are forgotten BEFORE the condition and the body are
+   parsed - the body is parsed once and runs any number of times - and stay forgotten. *)
 Fixpoint tstep (s : stmt) (te : tenv) (st : store) {struct s} : tres :=
   let fix tblock (b : list stmt) (te : tenv) (st : store) {struct b} : tres :=
     match b with
@@ -269,25 +294,27 @@ Fixpoint tstep (s : stmt) (te : tenv) (st : store) {struct s} : tres :=
     end in
   match s with
   | SIf body orelse =>
-      match tblock body te st with                       (* child = dict(vars): same bindings, same list objects *)
-      | Some (te1, st1, r1, f1) =>
-          match tblock orelse te st1 with                (* every branch starts from the snapshot *)
-          | Some (te2, st2, r2, f2) =>
-              Some (promote (promote te te1 []) te2 [], st2, [SIf r1 r2],
-                    f1 && f2 && disjoint_known (writes s) te && no_safe (writes s))
+      match tblock body te st with
+      | Some (te1, _, r1, f1) =>
+          match tblock orelse te st with
+          | Some (te2, _, r2, f2) =>
+              Some (forget (writes s) (promote (promote te te1 []) te2 []), st, [SIf r1 r2],
+                    f1 && f2 && no_safe (writes s))
           | None => None end
       | None => None end
   | SWhile body =>
-      match tblock body te st with
-      | Some (te1, st1, r1, f1) =>
-          Some (promote te te1 [], st1, [SWhile r1], f1 && disjoint_known (writes s) te && no_safe (writes s))
+      let te0 := forget (writes s) te in
+      match tblock body te0 st with
+      | Some (te1, _, r1, f1) => Some (promote te0 te1 [], st, [SWhile r1], f1 && no_safe (writes s))
       | None => None end
   | SFor x body =>
-      match tblock body ((x, TMark) :: te) st with
-      | Some (te1, st1, r1, f1) =>
-          Some (promote te te1 [x], st1, [SFor x r1], f1 && disjoint_known (writes s) te && no_safe (writes s))
+      let te0 := forget (writes s) te in
+      match tblock body ((x, TMark) :: te0) st with
+      | Some (te1, _, r1, f1) => Some (promote te0 te1 [x], st, [SFor x r1], f1 && no_safe (writes s))
       | None => None end
-  | _ => tsimple s te st
+  | _ => match tsimple s te st with
+         | Some (te1, st1, r1, f1) => Some (after_assign s te1, st1, r1, f1)
+         | None => None end
   end.
 
 Definition tblock := fix tblock (b : list stmt) (te : tenv) (st : store) {struct b} : tres :=
@@ -301,16 +328,17 @@ Definition tblock := fix tblock (b : list stmt) (te : tenv) (st : store) {struct
           | None => None end
       | None => None end
   end.
+End Vol.
 
 (* the whole pipeline on a script: what the firmware outputs on the path chosen by the oracle *)
 Definition firmware_outputs (p : list stmt) (orc : list nat) : option (list pval) :=
-  match tblock p [] [] with
+  match tblock [] p [] [] with
   | Some (_, _, res, _) => match rblock res orc [] with Some (_, out, _) => Some out | None => None end
   | None => None end.
 Definition python_outputs (p : list stmt) (orc : list nat) : option (list pval) :=
   match rblock p orc [] with Some (_, out, _) => Some out | None => None end.
 Definition is_fresh (p : list stmt) : bool :=
-  match tblock p [] [] with Some (_, _, _, f) => f | None => false end.
+  match tblock [] p [] [] with Some (_, _, _, f) => f | None => false end.
 
 (* ------------------------------------------------------------------ *)
 (* module level (scope = setup, depth = 0): static global initialisers vs run-time assignments
@@ -347,7 +375,7 @@ Fixpoint ttop_gen (closed_only : bool) (b : list stmt) (te : tenv) (st : store) 
   match b with
   | [] => Some (te, st, [], [], true, true)
   | s :: r =>
-      match tstep s te st with
+      match tstep [] s te st with
       | Some (te1, st1, r1, f1) =>
           let '(g1, body1, h1) := gsplit closed_only s te st seen r1 in
           (* names written so far (the residual writes what the source writes) *)
